@@ -1208,6 +1208,20 @@ V.append(dict(id="c18-trace-record-from-call-site-arguments-only", prop="C18", k
 fire("c18-min-array-scalar-copied-from-max", "C18", ARRAY,
      "@min.register(array, (int, float))\ndef _min(x, y):\n    return np.clip(x, None, y)\n", "@min.register(array, (int, float))\ndef _min(x, y):\n    return np.clip(x, y, None)\n", "R18.14", "min")
 
+
+fire("c05-unfold-freshness-guard-all-siblings", "C05", OPTIMIZER,
+     "        if v.reduced_vars and any(v.reduced_vars & t.input_vars for t in siblings):", "        if v.reduced_vars and all(v.reduced_vars & t.input_vars for t in siblings):", "R05.6", "unfold_contraction_generic_tuple")
+silent("c05-s-unfold-freshness-guard-not-all-disjoint", "C05", OPTIMIZER,
+       "        if v.reduced_vars and any(v.reduced_vars & t.input_vars for t in siblings):",
+       "        if v.reduced_vars and not all(v.reduced_vars.isdisjoint(t.input_vars) for t in siblings):")
+fire("c15-logsumexp-shift-over-whole-array", "C15", ARRAY,
+     "    amax = np.amax(x, axis=axis, keepdims=True)\n    # treat the case x = -inf", "    amax = np.amax(x, keepdims=True)\n    # treat the case x = -inf", "R15.15", "logsumexp")
+fire("c11-rename-clash-tested-against-subs-only", "C11", TENSOR,
+     "                if subs[k].name in self.inputs and subs[k].name not in renamed\n", "                if subs[k].name in subs and subs[k].name not in renamed\n", "R11.11", "Tensor.eager_subs")
+fire("c02-mixture-merged-under-any-reduction", "C02", CNF,
+     "def normalize_contraction_commute_joint(red_op, bin_op, reduced_vars, mixture, other):\n    if red_op is not ops.null and mixture.red_op not in (ops.null, red_op):\n        return None  # the two reductions differ and cannot be merged\n",
+     "def normalize_contraction_commute_joint(red_op, bin_op, reduced_vars, mixture, other):\n", "R02.21", "normalize_contraction_commute_joint")
+
 # ===== derived variants: must stay at the END of this file (they enumerate every rename() variant above) =====
 # `if c: A else: B` -> `if not c: B else: A` in the anchor functions (behaviour-preserving)
 def invert(prop, file, qual):
